@@ -71,6 +71,7 @@ package parse
 //@   ensures [self-first] !old(listed(*specs, len(*specs), fileNameToIndex(filename))) && old(in(fileNameToIndex(filename), retrieved.l)) ==> len(*specs) > old(len(*specs)) && (*specs)[old(len(*specs))].src.filename == old(retrieved.l[fileNameToIndex(filename)].src.src.filename)
 //@   ensures [prefix-kept] forall(i, 0, old(len(*specs)), (*specs)[i].src.filename == old((*specs)[i].src.filename))
 //@   ensures [first-import-second] firstImportIsNew(specs, filename, retrieved) ==> len(*specs) >= old(len(*specs)) + 2 && (*specs)[old(len(*specs))+1].src.filename == old(retrieved.l[fileNameToIndex(retrieved.l[fileNameToIndex(filename)].imports[0].filename)].src.src.filename)
+//@   assert @call:parse.flattenSpecs [imports-in-textual-order] arg1 == fi.imports[rangeindex+1].filename && arg0 == specs && arg2 == retrieved
 //@   loop 0 invariant [none-listed-before] forall(j, 0, rangeindex+1, fileNameToIndex((*specs)[j].src.filename) != fileNameToIndex(filename))
 //@   loop 1 invariant [grown] len(*specs) >= old(len(*specs)) + 1
 //@   loop 1 invariant [self-kept] (*specs)[old(len(*specs))].src.filename == old(retrieved.l[fileNameToIndex(filename)].src.src.filename)
